@@ -10,10 +10,8 @@ sys.path.insert(1, "/repo/src")
 sys.path.append(os.path.join(VERIF, "vendor"))
 
 NA = {
- "C25": "Pure function of (file content, Range header): static.File's range arithmetic and producers emit the same bytes whatever the consumer's timing; no schedule, clock, delivery or fault dimension decides it (DESIGN.md section 7).",
  "C26": "FilePath.child/preauthChild/descendant and File.getChild containment are pure path-string computations on one argument; nothing for a simulator to schedule or fault (DESIGN.md section 7).",
  "C27": "Redirect resolution, method rewriting and header stripping are a pure function of the previous request and response; the chain is strictly sequential, no interleaving or fault to explore (DESIGN.md section 7).",
- "C28": "Escaping in _flatten is a pure function of content strings; Deferred leaves are awaited one at a time in document order so firing order cannot change output; verdict rests on hostile inputs only (html5lib oracle also absent) (DESIGN.md section 7).",
  "C32": "DNS Message encode/decode round-trip is a codec on in-memory values; truncation is a function of message and limit (independent decoder dnspython also absent) (DESIGN.md section 7).",
  "C34": "RFC 1982 serial arithmetic is integer arithmetic; the quantifier itself calls for a proof, not simulation (DESIGN.md section 7).",
  "C37": "NS/getNS/MP/getMP and Key.toString/fromString are codecs on values; key-generation randomness is not a schedule (DESIGN.md section 7).",
@@ -22,7 +20,6 @@ NA = {
  "C43": "IRC line splitting and CTCP/low-level quoting are pure functions of (text, limit) (DESIGN.md section 7).",
  "C45": "Unjellying under SecurityOptions is a pure traversal of one s-expression; no schedule, time, delivery or fault (DESIGN.md section 7).",
  "C46": "quoteStringArgument vs the endpoint-description tokenizer is a pure string round-trip (DESIGN.md section 7).",
- "C54": "FTP path containment is decided by path arithmetic over (cwd, argument); session state evolves sequentially under one client; no delivery, timing or fault affects which path is touched (DESIGN.md section 7).",
  "C55": "Log text formatting is a pure function of the event dict; hostile __str__/__repr__ are inputs, not faults across a seam (DESIGN.md section 7).",
  "C56": "flatten -> JSON -> format equivalence is a pure function of the event (DESIGN.md section 7).",
 }
